@@ -1122,6 +1122,8 @@ class OnlyIf:
             for lt in cl.lits:
                 if lt.kind == "bool" and pb is not None and lt.origin.search(o) is not None and pb == lt.val:
                     return True
+            if pb is not None and self._origin_string_implies(o, pb, cl):
+                return True
             return False
         for site, kind, node in ds:
             if not self._def_implies(site, kind, node, pred, cl, stack + (l,)):
@@ -1242,6 +1244,45 @@ class OnlyIf:
         if pred[0] == "not":
             return {n for v, n in names.items() if v not in pred[1]}
         return None
+
+    _CMP_ORIGIN = re.compile(r"^<[^<>]*(?:<[^<>]*>)?[^<>]* as std::cmp::Partial(?:Ord|Eq)>::(lt|le|gt|ge|eq|ne)\((.*)\)$")
+    _CMP_NAMES = {"lt": "<", "le": "<=", "gt": ">", "ge": ">=", "eq": "==", "ne": "!="}
+
+    def _origin_string_implies(self, o, truth, cl, depth=0):
+        """A parameter substituted by the caller's argument origin (helper inlining): understand
+        `<T as PartialOrd>::gt(A, B)`, `(A Gt B)`, `Not(X)` and call literals in string form."""
+        if depth > 4:
+            return False
+        m = self._CMP_ORIGIN.match(o)
+        if m:
+            parts = _split_top(m.group(2))
+            if len(parts) == 2 and self._cmp_establishes(self._CMP_NAMES[m.group(1)], truth, parts[0], parts[1], cl):
+                return True
+        if o.startswith("(") and o.endswith(")"):
+            inner = o[1:-1]
+            depth_ = 0
+            for i, ch in enumerate(inner):
+                if ch in "({[":
+                    depth_ += 1
+                elif ch in ")}]":
+                    depth_ -= 1
+                elif ch == " " and depth_ == 0:
+                    rest = inner[i + 1:]
+                    for opn, opstr in BINOP_CMP.items():
+                        if rest.startswith(opn + " "):
+                            if self._cmp_establishes(opstr, truth, inner[:i], rest[len(opn) + 1:], cl):
+                                return True
+                    break
+        if o.startswith("Not(") and o.endswith(")"):
+            return self._origin_string_implies(o[4:-1], not truth, cl, depth + 1)
+        m = re.match(r"^([^()\[\]{} ]+(?:<[^()]*>)?[^()\[\]{} ]*)\((.*)\)$", o)
+        if m:
+            args = _split_top(m.group(2))
+            for lit in cl.lits:
+                if lit.kind == "call" and lit.fn.search(m.group(1)) and truth == lit.val:
+                    if all(rx is None or (i < len(args) and rx.search(args[i])) for i, rx in enumerate(lit.args)):
+                        return True
+        return False
 
     def _cmp_establishes(self, opstr, truth, oa, ob, cl):
         rel = REL_TRUE[opstr] if truth else ALLREL - REL_TRUE[opstr]
